@@ -441,3 +441,47 @@ def r_address_of_type(P, rep, rule):
         ok = isinstance(rt, Obj) and rt.fields.get('kind') == E['TY_PTR'] and rt.fields.get('base') is box['t']
         what = 'pointer to %s' % ('the first element\'s type' if (isinstance(rt, Obj) and isinstance(box['t'], Obj) and rt.fields.get('base') is box['t'].fields.get('base')) else 'another type')
         rep.ob(rule, key, ok, '&x for x of type %s has type %s; C11 6.5.3.2p3: pointer to the type of x (for an array: `&a + 1` steps over the whole array, `sizeof *&a` is the size of the array)' % (shape, what), where=where)
+
+
+def r_integer_compatibility(P, rep, rule):
+    """is_compatible over every ordered pair of integer types: C11 6.2.7p1 two types are compatible if they are the same type; distinct integer
+    types are never compatible (also when they have the same representation) - except that each enumerated type is compatible with one integer
+    type of the implementation's choice (6.7.2.2p4); chibicc represents and converts an enumerated type as int (getTypeId, get_common_type),
+    so that type is the int of the same size and signedness. Observable through _Generic and redeclaration checks."""
+    T = Types(P)
+    if 'is_compatible' not in T.tu.functions:
+        raise AnalysisBroken('type.c: is_compatible vanished')
+    where = 'type.c:%d' % T.tu.fn('is_compatible').line
+    names = INTS + ['enum']
+    for a in names:
+        for b in names:
+            if a == b == 'enum':
+                continue            # two enum_type() objects are two different enumerated types
+            it = T.interp(opaque=['error_tok'], rec_limit=6)
+            box = {}
+
+            def mk(ctx, a=a, b=b):
+                it.ctx = ctx
+                ta, tb = T.make(it, a), T.make(it, b)
+                box['enum'] = ta if a == 'enum' else tb if b == 'enum' else None
+                return [ta, tb]
+            try:
+                res = [out[1] for ctx, out in it.explore('is_compatible', mk) if out[0] == 'ret']
+            except AnalysisBroken as e:
+                rep.undecided(rule, 'type.c:is_compatible:(%s,%s)' % (a, b), 'is_compatible not interpretable: %s' % e, where=where)
+                continue
+            if len(res) != 1 or not isinstance(res[0], (int, bool)):
+                rep.undecided(rule, 'type.c:is_compatible:(%s,%s)' % (a, b), 'is_compatible has %d returning paths / a non-concrete result %r' % (len(res), res[:2]), where=where)
+                continue
+            got = bool(res[0])
+            if 'enum' in (a, b):
+                other = b if a == 'enum' else a
+                want = T.classify(it, box['enum']) == other          # classify names an enumerated type by the integer type it is represented as
+                why = 'C11 6.7.2.2p4: an enumerated type is compatible with one integer type; it is represented and converted as %s here' % T.classify(it, box['enum'])
+            else:
+                want = a == b
+                why = 'C11 6.2.7p1: integer types are compatible only with themselves'
+            key = 'type.c:is_compatible:(%s,%s)' % (a, b)
+            if got != want and 'enum' in (a, b):
+                key = 'type.c:is_compatible:enum-%s' % ('compatible-with-no-integer-type' if want else 'compatible-with-%s' % (b if a == 'enum' else a))
+            rep.ob(rule, key, got == want, 'is_compatible(%s, %s) is %s; %s (_Generic selects the wrong association)' % (a, b, got, why), where=where)
